@@ -127,6 +127,16 @@ def gen_cases(rng, tier, scale):
         items = [_t('#if t', True), _x('\n  hello\n' + ind), _t('/if', True, True, False), _x('\nend')]
         cases.append(rcase(f'lt{j5}', _src(items), {'t': True}, entry=0, kind='whole', s=' hello', exp=_exp(items), tags=['leading-tilde-indented']))
         j5 += 1
+    # text at the start of the RENDERED branch of an else / else-chain: only a `~` at the END of the else tag (or the
+    # standalone rule) may remove it; a `~` at the start of the tag reaches backwards only
+    j6 = 0
+    for link in ('else', 'else if t', 'else unless f', 'else with o', 'else each l'):
+        for tl in (False, True):
+            for tr in (False, True):
+                for L, R in ((' ', ' B'), ('A ', ' \tB '), ('A\n', '\n B\n'), ('', '  '), ('A\n  ', '\n  B\n')):
+                    items = [_t('#if f', True), _x('x' + L, live=False), _t(link, True, tl, tr), _x(R + 'E'), _t('/if', True), _x('|')]
+                    cases.append(rcase(f'lb{j6}', _src(items), {'t': True, 'f': False, 'o': {'k': 1}, 'l': [1]}, entry=0, kind='whole', s=R, exp=_exp(items), tags=['live-else-branch']))
+                    j6 += 1
     # a lone CR (not followed by LF) is ordinary text: it is never removed, also not directly after a tag that
     # stands at the start of a line
     for j2, (tpl, exp) in enumerate([('{{! note }}\rbody', '\rbody'), ('{{#if t}}\rx{{/if}}', '\rx'), ('{{{{raw}}}}\rz{{{{/raw}}}}', '\rz'),
